@@ -1773,8 +1773,14 @@ func (p *Prog) constGlobals(en *Engine) map[string]cell {
 						leaves(mkFieldAddr(addr, i, tp, u.Field(i).Type()), u.Field(i).Type(), depth+1)
 					}
 				default:
-					if v, isC := sub.load(fin, addr, tp).(*ConstV); isC {
+					switch v := sub.load(fin, addr, tp).(type) {
+					case *ConstV:
 						p.globalInit[addr.Key()] = cell{addr, v}
+					case *ClosureV:
+						// a plain function or method expression (no captured variables) is as immutable as a constant
+						if len(v.Bindings) == 0 {
+							p.globalInit[addr.Key()] = cell{addr, v}
+						}
 					}
 				}
 			}
@@ -1844,6 +1850,8 @@ func isLenCall(c *ssa.Call) bool {
 func constLikeType(t types.Type) bool {
 	switch u := t.Underlying().(type) {
 	case *types.Basic:
+		return true
+	case *types.Signature:
 		return true
 	case *types.Array:
 		return constLikeType(u.Elem())
